@@ -208,10 +208,12 @@ impl Dist {
 		let mut parts = Vec::<(Complex, BigRat)>::new();
 		for (n1, p1) in &self.parts {
 			for (n2, p2) in &rhs.parts {
+				test_int(int)?;
 				let n = f(n1, n2, int)?;
 				let p = p1.clone().mul(p2, int)?;
 				let mut found = false;
 				for (k, prob) in &mut parts {
+					test_int(int)?;
 					if k.compare(&n, int)? == Some(Ordering::Equal) {
 						*prob = prob.clone().add(p.clone(), int)?;
 						found = true;
